@@ -20,7 +20,9 @@ RULE = (
 )
 
 CLASSES = ["DirectedEdge", "UnDirectedEdge", "DSub", "OtherLink"]
-CONNS = [None, 0, 1e-9, 0.1, 0.5, 0.999, 1]
+CONNS = [None, 0, 1e-9, 0.1, 0.5, 0.999, 1,
+         # extreme but legal floats in [0, 1]: subnormals, the smallest normal, 1 - ulp, and float spellings of 0 / 1
+         5e-324, 1e-310, 2.2250738585072014e-308, 1e-300, 0.9999999999999999, 0.0, 1.0]
 
 
 def floors(ctx):
@@ -72,7 +74,7 @@ def judge(ctx, count, cname, conn, ensure, how, case):
         kwargs["connectivity"] = conn
     res = oracles.outcome(rg.randgraph, **kwargs)
     ctx.evaluated()
-    tagc = "default" if conn is None else ("zero" if conn == 0 else "one" if conn == 1 else "frac")
+    tagc = "default" if conn is None else ("zero" if conn == 0 else "one" if conn == 1 else "tiny" if conn < 1e-200 else "frac")
 
     def viol(mech, what):
         ctx.violation(mech, f"randgraph(count={count}, edge={cname}, connectivity={conn}, ensurelink={ensure}) "
